@@ -343,8 +343,62 @@ func predicateRejectsZero(fi *fw.FuncInfo) bool {
 		return false
 	}
 	param := sig.Params().At(0)
+	// evalAt folds the predicate expression e for param = v: 1 true, 0 false, -1 unknown. Only comparisons
+	// between the parameter and constants, joined by !, && and ||, are folded — in any spelling or operand order.
+	var evalAt func(e ast.Expr, v constant.Value) int
+	evalAt = func(e ast.Expr, v constant.Value) int {
+		e = ast.Unparen(e)
+		operand := func(x ast.Expr) constant.Value {
+			x = ast.Unparen(x)
+			if id, isID := x.(*ast.Ident); isID && info.Uses[id] == param {
+				return v
+			}
+			if tv, ok := info.Types[x]; ok && tv.Value != nil {
+				if iv := constant.ToInt(tv.Value); iv.Kind() == constant.Int {
+					return iv
+				}
+			}
+			return nil
+		}
+		switch x := e.(type) {
+		case *ast.UnaryExpr:
+			if x.Op == token.NOT {
+				if r := evalAt(x.X, v); r >= 0 {
+					return 1 - r
+				}
+			}
+			return -1
+		case *ast.BinaryExpr:
+			switch x.Op {
+			case token.LAND, token.LOR:
+				l, r := evalAt(x.X, v), evalAt(x.Y, v)
+				absorbing := 0 // false decides &&
+				if x.Op == token.LOR {
+					absorbing = 1
+				}
+				switch {
+				case l == absorbing || r == absorbing:
+					return absorbing
+				case l < 0 || r < 0:
+					return -1
+				}
+				return 1 - absorbing
+			case token.EQL, token.NEQ, token.LSS, token.LEQ, token.GTR, token.GEQ:
+				l, r := operand(x.X), operand(x.Y)
+				if l == nil || r == nil {
+					return -1
+				}
+				if constant.Compare(l, x.Op, r) {
+					return 1
+				}
+				return 0
+			}
+		}
+		return -1
+	}
 	admitsZero := func(e ast.Expr) bool {
-		// constant case
+		// a case value / returned expression that is a constant: in a tag-less switch or `return c` it is a
+		// boolean, in a tagged switch it is the value compared with the parameter
 		if tv, ok := info.Types[e]; ok && tv.Value != nil {
 			if tv.Value.Kind() == constant.Int {
 				v, _ := constant.Int64Val(tv.Value)
@@ -352,36 +406,8 @@ func predicateRejectsZero(fi *fw.FuncInfo) bool {
 			}
 			return false
 		}
-		// r >= C1 && r <= C2
-		lower := int64(-1 << 62)
-		found := false
-		for _, c := range flattenAnd(e) {
-			b, ok := ast.Unparen(c).(*ast.BinaryExpr)
-			if !ok {
-				return true // unknown shape: be conservative
-			}
-			id, isID := ast.Unparen(b.X).(*ast.Ident)
-			tv, isC := info.Types[b.Y]
-			if !isID || info.Uses[id] != param || !isC || tv.Value == nil {
-				if b.Op == token.EQL {
-					if tv2, ok := info.Types[b.Y]; ok && tv2.Value != nil {
-						v, _ := constant.Int64Val(constant.ToInt(tv2.Value))
-						return v == 0 || v == -1
-					}
-				}
-				return true
-			}
-			v, _ := constant.Int64Val(constant.ToInt(tv.Value))
-			switch b.Op {
-			case token.GEQ:
-				lower, found = v, true
-			case token.GTR:
-				lower, found = v+1, true
-			case token.EQL:
-				return v == 0 || v == -1
-			}
-		}
-		return !found || lower <= 0
+		// anything that does not fold to false at both EOF values may admit EOF (unknown shape: be conservative)
+		return evalAt(e, constant.MakeInt64(0)) != 0 || evalAt(e, constant.MakeInt64(-1)) != 0
 	}
 	ok, sawTrue := true, false
 	fw.WalkAll(fi.Decl.Body, func(n ast.Node) bool {
@@ -548,9 +574,18 @@ func isBoundsHelper(fi *fw.FuncInfo, cfg progressConfig) bool {
 	ok := false
 	fw.WalkAll(fi.Decl.Body, func(n ast.Node) bool {
 		if ret, isRet := n.(*ast.ReturnStmt); isRet && len(ret.Results) == 1 {
-			if b, isB := ast.Unparen(ret.Results[0]).(*ast.BinaryExpr); isB && (b.Op == token.GEQ || b.Op == token.GTR) {
+			// pos >= len, in either operand order
+			a := fw.Atom(info, ret.Results[0], true)
+			var posSide ast.Expr
+			switch a.Kind {
+			case "Ge", "Gt":
+				posSide = a.X
+			case "Le", "Lt":
+				posSide = a.Y
+			}
+			if posSide != nil {
 				for _, pf := range cfg.posFields {
-					if mentionsFieldAny(info, b.X, pf[0], pf[1]) {
+					if mentionsFieldAny(info, posSide, pf[0], pf[1]) {
 						ok = true
 					}
 				}
@@ -1564,25 +1599,24 @@ func limitCountsEveryField(r *fw.Run) {
 		return
 	}
 	// depthIsZero: e evaluating to branch implies localDepth == 0 (or <= 0)
-	var depthIsZero func(e ast.Expr, branch bool) bool
-	depthIsZero = func(e ast.Expr, branch bool) bool {
-		be, ok := ast.Unparen(e).(*ast.BinaryExpr)
-		if !ok {
+	depthIsZero := func(e ast.Expr, branch bool) bool {
+		// in negation normal form the outcome is a conjunction one of whose members pins the depth to zero
+		// (spelling and operand order do not matter: d == 0, 0 == d, !(d > 0), d < 1 …)
+		op, leaves := fw.NNF(info, e, branch)
+		if op != "atom" && op != "and" {
 			return false
 		}
-		if be.Op == token.LAND && branch { // a && b true: both true
-			return depthIsZero(be.X, true) || depthIsZero(be.Y, true)
-		}
-		if fw.RootObj(info, be.X) != depth {
-			return false
-		}
-		cv, isC := fw.ConstVal(info, be.Y)
-		if !isC || cv != "0" {
-			return false
-		}
-		switch {
-		case be.Op == token.GTR && !branch, be.Op == token.EQL && branch, be.Op == token.NEQ && !branch, be.Op == token.LEQ && branch:
-			return true
+		for _, a := range leaves {
+			if a.Y == nil || fw.RootObj(info, a.X) != depth {
+				continue
+			}
+			cv, isC := fw.ConstVal(info, a.Y)
+			if !isC {
+				continue
+			}
+			if (a.Kind == "Eq" && cv == "0") || (a.Kind == "Le" && cv == "0") || (a.Kind == "Lt" && cv == "1") {
+				return true
+			}
 		}
 		return false
 	}
